@@ -97,6 +97,7 @@ package shp
 //@   prop C16
 //@   mode fp
 //@   ensures [type] typeof(result) == *shp.PolyLine
+//@   ensures [part_table_readable] result.(*shp.PolyLine) != nil && len(result.(*shp.PolyLine).Parts) == len(g) && (len(result.(*shp.PolyLine).Points) < 2147483648 ==> partsOK(result.(*shp.PolyLine).Parts, len(result.(*shp.PolyLine).Points)))
 //@   loop 1 `for i, r := range g`
 //@     invariant [basic] fresh(parts) && len(parts) == len(g) && #1 <= len(g)
 //@     invariant [q1] (forall a int :: 0 <= a && a < #1 ==> fresh(parts[a]) && ringCopied(parts[a], g[a]) && len(parts[a]) == len(g[a]))
@@ -111,6 +112,7 @@ package shp
 //@   mode fp
 //@   opt trustpre=geom
 //@   ensures [type] typeof(result) == *shp.Polygon
+//@   ensures [part_table_readable] result.(*shp.Polygon) != nil && len(result.(*shp.Polygon).Parts) == len(g) && (len(result.(*shp.Polygon).Points) < 2147483648 ==> partsOK(result.(*shp.Polygon).Parts, len(result.(*shp.Polygon).Points)))
 //@   ensures [single_ring] len(g) == 1 ==> result.(*shp.Polygon) != nil && len(result.(*shp.Polygon).Points) >= len(g[0]) && (forall k int :: 0 <= k && k < len(g[0]) ==> biteq(result.(*shp.Polygon).Points[k].X, g[0][k].X) && biteq(result.(*shp.Polygon).Points[k].Y, g[0][k].Y))
 //@     using mention(ringCopied(parts[0], g[0]))
 //@   loop 1 `for i, r := range g`
